@@ -299,7 +299,10 @@ def handleP (d : DSt) : List String → DSt × String
     | none => (d, "bad-op")
   | ["cancel", w] =>
     match w.toNat? with
-    | some w => let p := Pipe.step d.ppol d.p (.cancel w); ({ d with p := p }, s!"pc={pPcStr (p.pc w)}")
+    | some w =>
+      let p := Pipe.step d.ppol d.p (.cancel w)
+      let closed := match p.pc w with | .leaving c _ _ _ _ => b01 (p.closed c) | _ => "-"
+      ({ d with p := p }, s!"pc={pPcStr (p.pc w)} closed={closed}")
     | none => (d, "bad-op")
   | ["writefail", w] =>
     match w.toNat? with
